@@ -150,3 +150,271 @@ Proof.
   unfold mbind at 1. unfold lift at 1. rewrite <- Lhb at 1. rewrite s_from_app.
   unfold mret, mk_header. fold hb. rewrite Lhb. reflexivity.
 Qed.
+
+(* ---- transaction accessors on a parsed transaction ---- *)
+Definition InLen (b : list byte) : Prop := lenN b < 4611686018427387904.   (* 2^62 *)
+
+Lemma InLen_In63 b : InLen b -> In63 b.
+Proof. unfold InLen, In63, TWO63. lia. Qed.
+
+Lemma tx_version_ok p v rest io : lenN v = 4 ->
+  tx_version {| tx_slice := sl p (v ++ rest); tx_io_len := io |} = Ok (i32_of_n (le_dec v)).
+Proof.
+  intros Lv. unfold tx_version. cbn [tx_slice]. rewrite <- Lv. unfold sl at 1. rewrite s_to_app. cbn [obind].
+  unfold read_i32. fold (sl p v). rewrite (read_le_exact 4 p v Lv). reflexivity.
+Qed.
+
+Lemma tx_locktime_ok p pre lt io : lenN lt = 4 ->
+  tx_locktime {| tx_slice := sl p (pre ++ lt); tx_io_len := io |} = Ok (le_dec lt).
+Proof.
+  intros Ll. unfold tx_locktime. cbn [tx_slice]. unfold s_len, sl. cbn [bytes]. rewrite lenN_app, Ll.
+  unfold usub. destruct (N.leb_spec 4 (lenN pre + 4)); [|lia]. cbn [obind].
+  replace (lenN pre + 4 - 4) with (lenN pre) by lia. rewrite s_from_app. cbn [obind].
+  unfold read_u32. fold (sl (p + lenN pre) lt). rewrite (read_le_exact 4 _ lt Ll). reflexivity.
+Qed.
+
+Lemma tx_event_legacy p v mid lt : lenN v = 4 -> lenN lt = 4 -> InLen (v ++ mid ++ lt) ->
+  let c := v ++ mid ++ lt in
+  tx_event {| tx_slice := sl p c; tx_io_len := None |} =
+  Ok (ETransaction (p, lenN c) (i32_of_n (le_dec v)) (le_dec lt) (p, lenN c) (0, 0) (0, 0) (lenN c * 4)).
+Proof.
+  intros Lv Ll HL c. unfold tx_event. unfold c at 1. rewrite (tx_version_ok p v (mid ++ lt) None Lv). cbn [obind].
+  replace c with ((v ++ mid) ++ lt) by (unfold c; rewrite <- app_assoc; reflexivity).
+  rewrite (tx_locktime_ok p (v ++ mid) lt None Ll). cbn [obind].
+  unfold tx_txid_preimage, tx_weight. cbn [tx_io_len tx_slice obind].
+  unfold umul, s_len, sl. cbn [bytes]. unfold InLen in HL.
+  replace ((v ++ mid) ++ lt) with c by (unfold c; rewrite <- app_assoc; reflexivity).
+  destruct (N.ltb_spec (lenN c * 4) TWO64) as [_|Hbad]; [|unfold TWO64 in Hbad; unfold c in Hbad; lia].
+  cbn [obind]. unfold pwin, win, s_len, empty_window. cbn [bytes off].
+  assert (Hc : lenN c <> 0). { unfold c. rewrite !lenN_app. lia. }
+  destruct (N.eqb_spec (lenN c) 0); [contradiction|].
+  change (lenN (@nil byte) =? 0) with true. cbv iota. reflexivity.
+Qed.
+
+Lemma tx_event_segwit p v mf io w lt : lenN v = 4 -> lenN mf = 2 -> 1 <= lenN io -> lenN lt = 4 ->
+  InLen (v ++ mf ++ io ++ w ++ lt) ->
+  let c := v ++ mf ++ io ++ w ++ lt in
+  tx_event {| tx_slice := sl p c; tx_io_len := Some (lenN io) |} =
+  Ok (ETransaction (p, lenN c) (i32_of_n (le_dec v)) (le_dec lt) (p, 4) (p + 6, lenN io) (p + lenN c - 4, 4)
+                   ((lenN io + 8) * 3 + lenN c)).
+Proof.
+  intros Lv Lm Lio Ll HL c. unfold tx_event. unfold c at 1.
+  rewrite (tx_version_ok p v (mf ++ io ++ w ++ lt) _ Lv). cbn [obind].
+  replace c with ((v ++ mf ++ io ++ w) ++ lt) by (unfold c; rewrite <- !app_assoc; reflexivity).
+  rewrite (tx_locktime_ok p (v ++ mf ++ io ++ w) lt _ Ll). cbn [obind].
+  replace ((v ++ mf ++ io ++ w) ++ lt) with c by (unfold c; rewrite <- !app_assoc; reflexivity).
+  unfold InLen in HL. fold c in HL.
+  assert (Lc : lenN c = 4 + 2 + lenN io + lenN w + 4). { unfold c. rewrite !lenN_app. lia. }
+  unfold tx_txid_preimage. cbn [tx_io_len tx_slice].
+  assert (A : s_to (sl p c) 4 = Ok (sl p v)). { unfold c. rewrite <- Lv. unfold sl. apply s_to_app. }
+  rewrite A. cbn [obind]. unfold uadd.
+  destruct (N.ltb_spec (lenN io + 6) TWO64) as [_|Hbad]; [|unfold TWO64 in Hbad; lia]. cbn [obind].
+  assert (B : s_range (sl p c) 6 (lenN io + 6) = Ok (sl (p + 6) io)).
+  { pose proof (s_range_mid p (v ++ mf) io (w ++ lt)) as G. rewrite lenN_app, Lv, Lm in G.
+    change (4 + 2) with 6 in G. rewrite (N.add_comm (lenN io) 6). rewrite <- G. f_equal. f_equal.
+    unfold c. rewrite <- !app_assoc. reflexivity. }
+  rewrite B. cbn [obind]. unfold usub, s_len. cbn [bytes sl].
+  destruct (N.leb_spec 4 (lenN c)); [|lia]. cbn [obind].
+  assert (C : s_from (sl p c) (lenN c - 4) = Ok (sl (p + (lenN c - 4)) lt)).
+  { replace c with ((v ++ mf ++ io ++ w) ++ lt) at 1 by (unfold c; rewrite <- !app_assoc; reflexivity).
+    replace (lenN c - 4) with (lenN (v ++ mf ++ io ++ w)) by (rewrite Lc, !lenN_app; lia).
+    unfold sl. apply s_from_app. }
+  rewrite C. cbn [obind].
+  unfold tx_weight. cbn [tx_io_len tx_slice]. unfold uadd, umul, s_len. cbn [bytes sl].
+  destruct (N.ltb_spec (lenN io + 4) TWO64) as [_|Hbad]; [|unfold TWO64 in Hbad; lia]. cbn [obind].
+  destruct (N.ltb_spec (lenN io + 4 + 4) TWO64) as [_|Hbad]; [|unfold TWO64 in Hbad; lia]. cbn [obind].
+  destruct (N.ltb_spec ((lenN io + 4 + 4) * 3) TWO64) as [_|Hbad]; [|unfold TWO64 in Hbad; lia]. cbn [obind].
+  destruct (N.ltb_spec ((lenN io + 4 + 4) * 3 + lenN c) TWO64) as [_|Hbad]; [|unfold TWO64 in Hbad; lia]. cbn [obind].
+  unfold pwin, win, s_len, sl. cbn [bytes off]. rewrite Lv, Ll.
+  change (4 =? 0) with false. cbv iota.
+  destruct (N.eqb_spec (lenN io) 0); [lia|].
+  replace (lenN io + 4 + 4) with (lenN io + 8) by lia.
+  replace (p + (lenN c - 4)) with (p + lenN c - 4) by lia. reflexivity.
+Qed.
+
+Definition io_of_hist (h : hist) : option N :=
+  match h with
+  | ETransaction _ _ _ _ pb _ _ :: _ => nonzero (snd pb)
+  | _ => None
+  end.
+
+Definition embed_tx (p : N) (b : list byte) (o : outcome a_tx) : out (presult transaction) * hist :=
+  match o with
+  | Done a s' => (Ok {| remaining := sl (pos s') (inp s');
+                        parsed := {| tx_slice := view p b s'; tx_io_len := io_of_hist (hi s') |} |}, hi s')
+  | Fail e h' => (Err e, h')
+  | Stuck => (OutOfFuel, [])
+  end.
+
+Lemma r_u_st w brk p b h :
+  r_u w brk (st0 p b h) = match splitN b w with
+                          | Some (a, r) => Done (le_dec a) (st0 (p + w) r h)
+                          | None => Fail MoreBytesNeeded h
+                          end.
+Proof. unfold r_u, bind, take, ret, st0. cbn [inp pos hi]. destruct (splitN b w) as [[a r]|]; reflexivity. Qed.
+
+Lemma st0_eta s : s = st0 (pos s) (inp s) (hi s).
+Proof. destruct s; reflexivity. Qed.
+
+Theorem visit_transaction_ref brk p b h : InLen b ->
+  visit_transaction brk (sl p b) h = embed_tx p b (r_tx brk (st0 p b h)).
+Proof.
+  intros HL. pose proof (InLen_In63 b HL) as H63.
+  unfold visit_transaction, r_tx.
+  unfold mbind at 1. unfold lift at 1. unfold read_i32. rewrite read_le_spec. cbn [bytes sl].
+  unfold bind at 1. unfold get_pos at 1. cbn [pos st0].
+  unfold bind at 1. rewrite r_u_st.
+  destruct (splitN b 4) as [[v r1]|] eqn:S1; [|reflexivity].
+  apply splitN_Some in S1. destruct S1 as [Hb Lv].
+  cbn [obind]. unfold mbind at 1. unfold lift at 1.
+  assert (SF : s_from (sl p b) 4 = Ok (sl (p + 4) r1)). { rewrite Hb, <- Lv. unfold sl. apply s_from_app. }
+  rewrite SF.
+  assert (H63r1 : In63 r1). { rewrite Hb in H63. apply In63_suffix in H63. exact H63. }
+  destruct (visit_txins_ref brk (p + 4) r1 h H63r1) as [T1 [T2 T3]].
+  unfold mbind at 1. rewrite T3. unfold bind at 1.
+  destruct (r_txins brk (st0 (p + 4) r1 h)) as [ins0 s1|e h'|] eqn:RT; [|reflexivity|contradiction].
+  destruct s1 as [q1 i1 h1].
+  destruct (T2 ins0 _ eq_refl) as [c1 [Hr1 [Hp1 [Hc1 [He1 Hm1]]]]]. cbn [pos inp hi] in *.
+  cbn [embed_visit]. unfold mbind at 1. unfold lift at 1. cbn [parsed].
+  assert (Hview1 : view (p + 4) r1 {| pos := q1; inp := i1; hi := h1 |} = sl (p + 4) c1).
+  { rewrite Hr1. apply (view_app (p + 4) c1 {| pos := q1; inp := i1; hi := h1 |}). exact Hp1. }
+  rewrite Hview1, He1.
+  unfold mbind at 1. unfold lift at 1. cbn [remaining].
+  assert (H63s1 : In63 i1). { rewrite Hr1 in H63r1. apply In63_suffix in H63r1. exact H63r1. }
+  cbn [pos inp hi].
+  destruct ins0 as [|i0 ins0'].
+  2:{ (* legacy *)
+    cbn [list_empty].
+    destruct (visit_txouts_ref brk q1 i1 h1 H63s1) as [O1 [O2 O3]].
+    unfold mbind at 1. rewrite O3. unfold bind at 1.
+    change (r_txouts brk {| pos := q1; inp := i1; hi := h1 |}) with (r_txouts brk (st0 q1 i1 h1)).
+    destruct (r_txouts brk (st0 q1 i1 h1)) as [outs s2|e h'|] eqn:RO; [|reflexivity|contradiction].
+    destruct s2 as [q2 i2 h2].
+    destruct (O2 outs _ eq_refl) as [c2 [Hi1 [Hp2 [Hc2 He2]]]]. cbn [pos inp hi] in *.
+    cbn [embed_visit]. unfold mbind at 1. unfold lift at 1. cbn [remaining parsed pos inp hi].
+    unfold read_u32. rewrite read_le_spec. cbn [bytes sl].
+    unfold bind at 1. change (r_u 4 brk {| pos := q2; inp := i2; hi := h2 |}) with (r_u 4 brk (st0 q2 i2 h2)). rewrite r_u_st.
+    destruct (splitN i2 4) as [[lt r3]|] eqn:S3; [|reflexivity].
+    apply splitN_Some in S3. destruct S3 as [Hi2 Ll].
+    unfold mbind at 1. unfold lift at 1. unfold consumed_of. cbn [parsed tis_slice tos_slice].
+    assert (Hview2 : view q1 i1 {| pos := q2; inp := i2; hi := h2 |} = sl q1 c2).
+    { rewrite Hi1. apply (view_app q1 c2 {| pos := q2; inp := i2; hi := h2 |}). exact Hp2. }
+    rewrite Hview2. unfold s_len, sl at 1 2. cbn [bytes]. unfold uadd.
+    set (c := v ++ (c1 ++ c2) ++ lt).
+    assert (Hbc : b = c ++ r3). { unfold c. rewrite Hb, Hr1, Hi1, Hi2. rewrite <- !app_assoc. reflexivity. }
+    assert (Lc : lenN c = lenN c1 + lenN c2 + 8). { unfold c. rewrite !lenN_app. lia. }
+    unfold InLen in HL. assert (HLc : InLen c). { unfold InLen. rewrite Hbc, lenN_app in HL. lia. }
+    assert (Hlen : lenN b = lenN c + lenN r3). { rewrite Hbc, lenN_app. reflexivity. }
+    destruct (N.ltb_spec (lenN c1 + lenN c2) TWO64) as [_|Hbad]; [|unfold TWO64 in Hbad; lia].
+    unfold mbind at 1. unfold lift at 1.
+    destruct (N.ltb_spec (lenN c1 + lenN c2 + 8) TWO64) as [_|Hbad]; [|unfold TWO64 in Hbad; lia].
+    unfold mbind at 1. unfold lift at 1. rewrite <- Lc. rewrite Hbc at 1. unfold sl at 1. rewrite s_to_app. fold (sl p c).
+    pose proof (tx_event_legacy p v (c1 ++ c2) lt Lv Ll HLc) as TE. cbn zeta in TE. fold c in TE.
+    unfold mbind at 1. unfold lift at 1. rewrite TE.
+    unfold bind at 1. unfold get_pos at 1. cbn [pos st0].
+    unfold bind at 1. unfold mbind at 1.
+    assert (Hp : q2 + 4 - p = lenN c) by lia. rewrite Hp.
+    unfold emit, emitp. cbn [breakable andb hi st0].
+    destruct (brk (h2) _); [reflexivity|].
+    unfold mbind at 1. unfold lift at 1. rewrite Hbc at 1. unfold sl at 1. rewrite s_from_app.
+    unfold mret, ret. cbn [embed_tx pos inp hi io_of_hist snd]. unfold st0. cbn [pos inp hi].
+    change (nonzero 0) with (@None N).
+    assert (Hv : view p b {| pos := q2 + 4; inp := r3; hi := ETransaction (p, lenN c) (i32_of_n (le_dec v)) (le_dec lt) (p, lenN c) (0, 0) (0, 0) (lenN c * 4) :: h2 |} = sl p c).
+    { rewrite Hbc. apply (view_app p c {| pos := q2 + 4; inp := r3; hi := _ |}). cbn [pos]. lia. }
+    rewrite Hv. replace (p + lenN c) with (q2 + 4) by lia. reflexivity. }
+  (* segwit marker: the first input list is empty *)
+  cbn [list_empty]. specialize (Hm1 eq_refl).
+  rewrite read_u8_spec. cbn [bytes sl].
+  unfold bind at 1. change (r_u 1 brk {| pos := q1; inp := i1; hi := h1 |}) with (r_u 1 brk (st0 q1 i1 h1)). rewrite r_u_st.
+  destruct i1 as [|x i1']; [reflexivity|].
+  rewrite splitN_1, le_dec_1.
+  destruct (N.eqb_spec (b2n x) 1) as [Hflag|Hflag]; [|reflexivity].
+  unfold mbind at 1. unfold lift at 1.
+  assert (SF1 : s_from (sl q1 (x :: i1')) 1 = Ok (sl (q1 + 1) i1')).
+  { pose proof (s_from_app q1 [x] i1') as G. change (lenN [x]) with 1 in G. exact G. }
+  rewrite SF1.
+  unfold bind at 1. unfold get_pos at 1. cbn [pos st0].
+  assert (H63i1' : In63 i1'). { change (x :: i1') with ([x] ++ i1') in H63s1. apply In63_suffix in H63s1. exact H63s1. }
+  (* inputs *)
+  destruct (visit_txins_ref brk (q1 + 1) i1' h1 H63i1') as [U1 [U2 U3]].
+  unfold mbind at 1. rewrite U3. unfold bind at 1.
+  destruct (r_txins brk (st0 (q1 + 1) i1' h1)) as [ins s2|e h'|] eqn:RI; [|reflexivity|contradiction].
+  destruct s2 as [q2 i2 h2].
+  destruct (U2 ins _ eq_refl) as [c2 [Hi1' [Hp2 [Hc2 [He2 _]]]]]. cbn [pos inp hi] in *.
+  cbn [embed_visit remaining parsed pos inp hi].
+  assert (Hview2 : view (q1 + 1) i1' {| pos := q2; inp := i2; hi := h2 |} = sl (q1 + 1) c2).
+  { rewrite Hi1'. apply (view_app (q1 + 1) c2 {| pos := q2; inp := i2; hi := h2 |}). exact Hp2. }
+  rewrite Hview2.
+  (* outputs *)
+  assert (H63i2 : In63 i2). { rewrite Hi1' in H63i1'. apply In63_suffix in H63i1'. exact H63i1'. }
+  destruct (visit_txouts_ref brk q2 i2 h2 H63i2) as [O1 [O2 O3]].
+  unfold mbind at 1. rewrite O3. unfold bind at 1.
+  change (r_txouts brk {| pos := q2; inp := i2; hi := h2 |}) with (r_txouts brk (st0 q2 i2 h2)).
+  destruct (r_txouts brk (st0 q2 i2 h2)) as [outs s3|e h'|] eqn:RO; [|reflexivity|contradiction].
+  destruct s3 as [q3 i3 h3].
+  destruct (O2 outs _ eq_refl) as [c3 [Hi2 [Hp3 [Hc3 He3]]]]. cbn [pos inp hi] in *.
+  cbn [embed_visit remaining parsed pos inp hi].
+  assert (Hview3 : view q2 i2 {| pos := q3; inp := i3; hi := h3 |} = sl q2 c3).
+  { rewrite Hi2. apply (view_app q2 c3 {| pos := q3; inp := i3; hi := h3 |}). exact Hp3. }
+  rewrite Hview3.
+  unfold bind at 1. unfold get_pos at 1. cbn [pos].
+  (* witnesses *)
+  assert (H63i3 : In63 i3). { rewrite Hi2 in H63i2. apply In63_suffix in H63i2. exact H63i2. }
+  cbn [tis_n].
+  destruct (visit_witnesses_ref brk q3 i3 (lenN ins) h3 H63i3) as [W1 [W2 W3]].
+  unfold mbind at 1. rewrite W3. unfold bind at 1.
+  change (r_witnesses (lenN ins) brk {| pos := q3; inp := i3; hi := h3 |}) with (r_witnesses (lenN ins) brk (st0 q3 i3 h3)).
+  destruct (r_witnesses (lenN ins) brk (st0 q3 i3 h3)) as [ws s4|e h'|] eqn:RW; [|reflexivity|contradiction].
+  destruct s4 as [q4 i4 h4].
+  destruct (W2 ws _ eq_refl) as [c4 [Hi3 [Hp4 Hlw]]]. cbn [pos inp hi] in *.
+  cbn [embed_visit remaining parsed pos inp hi].
+  assert (Hview4 : view q3 i3 {| pos := q4; inp := i4; hi := h4 |} = sl q3 c4).
+  { rewrite Hi3. apply (view_app q3 c4 {| pos := q4; inp := i4; hi := h4 |}). exact Hp4. }
+  rewrite Hview4.
+  unfold mbind at 1. unfold lift at 1. rewrite He2. cbn [ws_all_empty].
+  change (all_empty ws) with (forallb list_empty ws).
+  replace (match ins with [] => false | _ :: _ => true end) with (negb (list_empty ins)) by (destruct ins; reflexivity).
+  destruct (negb (list_empty ins) && forallb list_empty ws) eqn:NW; [reflexivity|].
+  (* lock time *)
+  unfold mbind at 1. unfold lift at 1. unfold read_u32. rewrite read_le_spec. cbn [bytes sl].
+  unfold bind at 1. change (r_u 4 brk {| pos := q4; inp := i4; hi := h4 |}) with (r_u 4 brk (st0 q4 i4 h4)). rewrite r_u_st.
+  destruct (splitN i4 4) as [[lt r5]|] eqn:S5; [|reflexivity].
+  apply splitN_Some in S5. destruct S5 as [Hi4 Ll].
+  unfold consumed_of. cbn [parsed tis_slice tos_slice ws_slice]. unfold s_len, sl at 1 2 3 4 5. cbn [bytes]. unfold uadd.
+  set (c := v ++ (c1 ++ [x]) ++ (c2 ++ c3) ++ c4 ++ lt).
+  assert (Hbc : b = c ++ r5).
+  { unfold c. rewrite Hb, Hr1. change (x :: i1') with ([x] ++ i1'). rewrite Hi1', Hi2, Hi3, Hi4. rewrite <- !app_assoc. reflexivity. }
+  assert (Lc : lenN c = 10 + lenN c2 + lenN c3 + lenN c4). { unfold c. rewrite !lenN_app. change (lenN [x]) with 1. lia. }
+  unfold InLen in HL. assert (HLc : InLen c). { unfold InLen. rewrite Hbc, lenN_app in HL. lia. }
+  assert (Hlen : lenN b = lenN c + lenN r5). { rewrite Hbc, lenN_app. reflexivity. }
+  unfold mbind at 1. unfold lift at 1.
+  destruct (N.ltb_spec (10 + lenN c2) TWO64) as [_|Hbad]; [|unfold TWO64 in Hbad; lia].
+  unfold mbind at 1. unfold lift at 1.
+  destruct (N.ltb_spec (10 + lenN c2 + lenN c3) TWO64) as [_|Hbad]; [|unfold TWO64 in Hbad; lia].
+  unfold mbind at 1. unfold lift at 1.
+  destruct (N.ltb_spec (10 + lenN c2 + lenN c3 + lenN c4) TWO64) as [_|Hbad]; [|unfold TWO64 in Hbad; lia].
+  unfold mbind at 1. unfold lift at 1.
+  destruct (N.ltb_spec (lenN c2 + lenN c3) TWO64) as [_|Hbad]; [|unfold TWO64 in Hbad; lia].
+  unfold mbind at 1. unfold lift at 1. rewrite <- Lc. rewrite Hbc at 1. unfold sl at 1. rewrite s_to_app. fold (sl p c).
+  assert (Lmf : lenN (c1 ++ [x]) = 2). { rewrite lenN_app, Hm1. reflexivity. }
+  assert (Lio : 1 <= lenN (c2 ++ c3)). { rewrite lenN_app. lia. }
+  pose proof (tx_event_segwit p v (c1 ++ [x]) (c2 ++ c3) c4 lt Lv Lmf Lio Ll HLc) as TE. cbn zeta in TE. fold c in TE.
+  rewrite lenN_app in TE.
+  assert (Hnz : nonzero (lenN c2 + lenN c3) = Some (lenN c2 + lenN c3)).
+  { unfold nonzero. destruct (N.eqb_spec (lenN c2 + lenN c3) 0); [lia|reflexivity]. }
+  rewrite Hnz.
+  unfold mbind at 1. unfold lift at 1. rewrite TE.
+  unfold bind at 1. unfold get_pos at 1. cbn [pos st0].
+  unfold bind at 1. unfold mbind at 1.
+  replace (q4 + 4 - p) with (lenN c) by lia.
+  replace (q3 - (q1 + 1)) with (lenN c2 + lenN c3) by lia.
+  replace (q4 + 4 - 4) with (p + lenN c - 4) by lia.
+  unfold emit, emitp. cbn [breakable andb hi st0].
+  destruct (brk h4 _); [reflexivity|].
+  unfold mbind at 1. unfold lift at 1. rewrite Hbc at 1. unfold sl at 1. rewrite s_from_app.
+  unfold mret, ret. cbn [embed_tx pos inp hi io_of_hist snd]. unfold st0. cbn [pos inp hi].
+  rewrite Hnz.
+  assert (Hv : forall hh, view p b {| pos := q4 + 4; inp := r5; hi := hh |} = sl p c).
+  { intros hh. rewrite Hbc. apply (view_app p c {| pos := q4 + 4; inp := r5; hi := hh |}). cbn [pos]. lia. }
+  rewrite Hv. replace (p + lenN c) with (q4 + 4) by lia. reflexivity.
+Qed.
